@@ -70,7 +70,7 @@ def gen(prop, stream, tier, avoid):
         if kind == "surface" and rng.chance(0.35) and "trims" not in avoid:
             spec["trims"] = _gen_trims(rng)
         objs.append(spec)
-    nops = kn.pick([3, 4, 5, 6, 8, 10, 14, 18, 25])
+    nops = kn.pick([3, 4, 5, 6, 8, 10, 14, 18, 25] + ([40] if tier == "thorough" else []))
     ops = []
     nrestart = 0
     for _ in range(nops):
